@@ -11,16 +11,11 @@ import (
 	"fmt"
 	"os"
 	"runtime"
-	"strconv"
-	"strings"
 	"syscall"
-	"time"
 	"unsafe"
 
 	"verifharness/hx"
 
-	"github.com/criyle/go-sandbox/pkg/forkexec"
-	"github.com/criyle/go-sandbox/pkg/rlimit"
 	"github.com/criyle/go-sandbox/pkg/seccomp/libseccomp"
 	"github.com/elastic/go-seccomp-bpf/arch"
 )
@@ -57,11 +52,21 @@ type policyCase struct {
 	Def   uint32   `json:"def"`
 	Extra []word   `json:"extra"`
 	// kernel cross-check only
-	Samples []sample `json:"samples,omitempty"`
+	Samples []sample  `json:"samples,omitempty"`
+	Opt     launchOpt `json:"opt"`
+}
+
+// launchOpt selects the forkexec.Runner options that decide where (and whether) the child loads
+// the filter: fork_child_linux.go has an early load site and a late one after the parent sync.
+type launchOpt struct {
+	Unshare bool   `json:"unshare"` // UnshareCgroupAfterSync
+	Caps    string `json:"caps"`    // "none" | "drop" (DropCaps) | "cred" (Credential nobody)
+	Sync    bool   `json:"sync"`    // SyncFunc set
+	Mode    string `json:"mode"`    // "plain" | "ptrace" (Ptrace + minimal tracer) | "stop" (StopBeforeSeccomp)
 }
 
 type sample struct {
-	M  string `json:"m"` // "n" native syscall instruction, "i" int 0x80
+	M  string `json:"m"` // "n" native syscall instruction, "i" int 0x80, "w" spin (seccomp state is read from /proc)
 	Nr word   `json:"nr"`
 	// filled by the driver: how the child ended.  o: sig / exit / blocked / loadfail / starterr,
 	// v: signal number, exit status or errno, d: detail for starterr
@@ -72,18 +77,19 @@ type sample struct {
 
 // policyLine is what TLC reads: the declared policy in numbers and the program the kernel gets.
 type policyLine struct {
-	ID     string   `json:"id"`
-	Kind   string   `json:"kind"`
-	Allow  []int    `json:"allow"`
-	Trace  []int    `json:"trace"`
-	Def    word     `json:"def"`
-	Err    string   `json:"err"`
-	Len    int      `json:"len"`
-	Prog   []ins    `json:"prog"`
-	Extra  []word   `json:"extra"`
-	NAllow []string `json:"nallow"` // names, for the replay file only
-	NTrace []string `json:"ntrace"`
-	Obs    []sample `json:"obs"`
+	ID     string    `json:"id"`
+	Kind   string    `json:"kind"`
+	Allow  []int     `json:"allow"`
+	Trace  []int     `json:"trace"`
+	Def    word      `json:"def"`
+	Err    string    `json:"err"`
+	Len    int       `json:"len"`
+	Prog   []ins     `json:"prog"`
+	Extra  []word    `json:"extra"`
+	NAllow []string  `json:"nallow"` // names, for the replay file only
+	NTrace []string  `json:"ntrace"`
+	Obs    []sample  `json:"obs"`
+	Opt    launchOpt `json:"opt"`
 }
 
 func nativeTable() (*arch.Info, error) { return arch.GetInfo("") }
@@ -132,7 +138,7 @@ func readBack(fp *syscall.SockFprog) []ins {
 // code in between (config.GetConf) is part of what is judged.
 func buildLine(info *arch.Info, c policyCase, builtAllow, builtTrace []string) (policyLine, *syscall.SockFprog, error) {
 	l := policyLine{ID: c.ID, Kind: c.Kind, Def: w32(c.Def), Extra: c.Extra, NAllow: c.Allow, NTrace: c.Trace,
-		Prog: []ins{}, Obs: []sample{}}
+		Prog: []ins{}, Obs: []sample{}, Opt: c.Opt}
 	if l.Extra == nil {
 		l.Extra = []word{}
 	}
@@ -180,133 +186,6 @@ func buildMain(args []string) error {
 		l, _, err := buildLine(info, c, c.Allow, c.Trace)
 		if err != nil {
 			return fmt.Errorf("case %s: %w", c.ID, err)
-		}
-		out.Write(l)
-	}
-	return nil
-}
-
-// ---- kernel cross-check -------------------------------------------------------------------
-
-// killChildren sends SIGKILL to every direct child of this process.
-func killChildren() {
-	tasks, _ := os.ReadDir("/proc/self/task")
-	for _, t := range tasks {
-		b, err := os.ReadFile("/proc/self/task/" + t.Name() + "/children")
-		if err != nil {
-			continue
-		}
-		for _, f := range strings.Fields(string(b)) {
-			if pid, err := strconv.Atoi(f); err == nil && pid > 1 {
-				syscall.Kill(pid, syscall.SIGKILL)
-			}
-		}
-	}
-}
-
-func runSample(probe string, fp *syscall.SockFprog, s sample) (string, int, string) {
-	r := forkexec.Runner{
-		Args:     []string{probe, s.M, fmt.Sprintf("%x", s.Nr.u32())},
-		Env:      []string{},
-		Seccomp:  fp,
-		DropCaps: true,
-		RLimits:  (&rlimit.RLimits{DisableCore: true}).PrepareRLimit(),
-	}
-	// A filter that does not let execve (or the child's error path: write, exit) through leaves the
-	// forked child spinning before exec and Start blocked on the sync pipe.  The watchdog kills
-	// our direct children so that the driver always terminates; the launch is reported as "stuck".
-	started := make(chan struct{})
-	stuck := make(chan bool, 1)
-	go func() {
-		select {
-		case <-started:
-			stuck <- false
-		case <-time.After(10 * time.Second):
-			killChildren()
-			stuck <- true
-		}
-	}()
-	pid, err := r.Start()
-	close(started)
-	wasStuck := <-stuck
-	if err != nil {
-		if wasStuck {
-			return "stuck", 0, err.Error()
-		}
-		if ce, ok := err.(forkexec.ChildError); ok {
-			if ce.Location == forkexec.LocSeccomp {
-				return "loadfail", int(ce.Err), ""
-			}
-			return "starterr", int(ce.Err), fmt.Sprintf("location %v", ce.Location)
-		}
-		return "starterr", 0, err.Error()
-	}
-	if wasStuck {
-		var ws syscall.WaitStatus
-		syscall.Wait4(pid, &ws, 0, nil)
-		return "stuck", 0, "child never reached exec"
-	}
-	var ws syscall.WaitStatus
-	deadline := time.Now().Add(5 * time.Second)
-	blocked := false
-	for {
-		wpid, err := syscall.Wait4(pid, &ws, syscall.WNOHANG, nil)
-		if err == syscall.EINTR {
-			continue
-		}
-		if err != nil {
-			return "starterr", 0, "wait4: " + err.Error()
-		}
-		if wpid == pid {
-			break
-		}
-		if !blocked && time.Now().After(deadline) {
-			blocked = true
-			syscall.Kill(pid, syscall.SIGKILL)
-		}
-		time.Sleep(200 * time.Microsecond)
-	}
-	switch {
-	case blocked:
-		return "blocked", 0, ""
-	case ws.Signaled():
-		return "sig", int(ws.Signal()), ""
-	case ws.Exited():
-		return "exit", ws.ExitStatus(), ""
-	}
-	return "starterr", int(ws), "unexpected wait status"
-}
-
-func kernelMain(args []string) error {
-	if len(args) != 3 {
-		return fmt.Errorf("usage: kernel <cases.ndjson> <probe> <out.ndjson>")
-	}
-	info, err := nativeTable()
-	if err != nil {
-		return err
-	}
-	cases, err := hx.ReadLines[policyCase](args[0])
-	if err != nil {
-		return err
-	}
-	out, err := hx.NewLineWriter(args[2])
-	if err != nil {
-		return err
-	}
-	defer out.Close()
-	for _, c := range cases {
-		l, fp, err := buildLine(info, c, c.Allow, c.Trace)
-		if err != nil {
-			return fmt.Errorf("case %s: %w", c.ID, err)
-		}
-		if fp != nil {
-			for _, s := range c.Samples {
-				s.O, s.V, s.D = runSample(args[1], fp, s)
-				l.Obs = append(l.Obs, s)
-				if s.O == "stuck" {
-					break // every further launch under this filter would hang the same way
-				}
-			}
 		}
 		out.Write(l)
 	}
